@@ -128,8 +128,19 @@ def check_config(rec, idx, heavy):
         # ---- zero amplitudes reduce to the sphere
         z, _, _, _ = build({**rec, "modes": []}, 0.0)
         try:
-            if np.max(np.abs(np.asarray(z.interface_curvature(*args)) - 1 / R)) > 1e-15 / R:
+            kz = np.asarray(z.interface_curvature(*args))
+            if kz.shape != np.asarray(args[0]).shape:
+                fails.append(f"zero amplitudes: curvature at {np.asarray(args[0]).shape} directions has shape {kz.shape}")
+            if np.max(np.abs(kz - 1 / R)) > 1e-15 / R:
                 fails.append("zero amplitudes: curvature is not 1 / R")
+            # one direction at a time (plain floats), as for a sphere
+            for j in (0, len(np.atleast_1d(args[0])) // 2):
+                one = [float(np.atleast_1d(a)[j]) for a in args]
+                k1s = z.interface_curvature(*one)
+                if np.ndim(k1s) != 0 or abs(float(k1s) - 1 / R) > 1e-15 / R:
+                    fails.append("zero amplitudes: curvature at a single direction is not the number 1 / R")
+                if abs(float(drop.interface_curvature(*one)) - float(np.atleast_1d(drop.interface_curvature(*args))[j])) > 1e-15 / R:
+                    fails.append("curvature at a single direction differs from the same direction in an array")
             if np.max(np.abs(np.asarray(z.interface_distance(*args)) - R)) != 0:
                 fails.append("zero amplitudes: interface distance is not R")
             if c == "P2" and (abs(z.volume - math.pi * R * R) > 1e-14 * R * R or abs(z.surface_area - 2 * math.pi * R) > 1e-9 * R):
